@@ -553,3 +553,50 @@ Proof.
       destruct (on_read_ready c (geo (rb s1)) r pol) as [[[ops obs] g3] pol'].
       cbn [fst snd] in *. cbn [r_run]. rewrite S1. exists s'. auto.
 Qed.
+
+(* ---------------------------------------------------------------------------------------------- *)
+(* the write-ready wake-up is never lost                                                           *)
+(* ---------------------------------------------------------------------------------------------- *)
+(* reachable states: once the channel is closed nobody is parked on it *)
+Definition wake_ok (w : wake) : Prop := wclosed w = true -> wparked w = false.
+Lemma wake_ok_init : wake_ok {| wparked := false; wtoken := false; wclosed := false |}.
+Proof. intros _. reflexivity. Qed.
+Lemma wake_ok_wait w : wake_ok w -> wake_ok (wake_wait w).
+Proof. destruct w as [p t c]. unfold wake_ok, wake_wait. cbn. destruct c, t; cbn; auto; discriminate. Qed.
+Lemma wake_ok_call w c : wake_ok w -> wake_ok (wake_call w c).
+Proof. destruct w as [p t cl], c; unfold wake_ok; cbn; auto; destruct cl, p; cbn; auto; discriminate. Qed.
+Lemma wake_ok_event w e : wake_ok w -> wake_ok (wake_event w e).
+Proof.
+  unfold wake_event. generalize (handle_event e). intros l. revert w.
+  induction l as [|c r IH]; intros w H; cbn [fold_left]; [exact H | apply IH, wake_ok_call, H].
+Qed.
+
+(* an event that carries EPOLLOUT (or EPOLLRDHUP) releases a parked writer whatever else it carries *)
+Theorem wakeup_out : forall w e, wake_ok w -> ev_out e = true \/ ev_rdhup e = true -> wparked (wake_event w e) = false.
+Proof.
+  intros [p t c] [r i o] Ok H. unfold wake_event, handle_event. cbn [ev_rdhup ev_in ev_out] in *.
+  destruct r; cbn [fold_left wake_call wparked]; [reflexivity|].
+  destruct H as [-> | H]; [|discriminate].
+  destruct c.
+  - pose proof (Ok eq_refl) as P. cbn in P. subst p. destruct i; reflexivity.
+  - destruct i; cbn [app fold_left wake_call wclosed wparked wtoken]; destruct p; reflexivity.
+Qed.
+
+(* ... and if no writer was waiting, the notification is kept for the writer that is about to wait: a writer that
+   got EAGAIN before the event and reaches the channel receive after it does not block *)
+Theorem wakeup_kept : forall w e, ev_out e = true \/ ev_rdhup e = true ->
+  wparked w = false -> wparked (wake_wait (wake_event w e)) = false.
+Proof.
+  intros [p t c] [r i o] H P. cbn in P. subst p. unfold wake_event, handle_event, wake_wait.
+  cbn [ev_rdhup ev_in ev_out] in *.
+  destruct r; cbn [fold_left wake_call wparked wclosed wtoken]; [reflexivity|].
+  destruct H as [-> | H]; [|discriminate].
+  destruct i; cbn [app fold_left wake_call wclosed wparked wtoken]; destruct c; reflexivity.
+Qed.
+
+(* an event without EPOLLOUT / EPOLLRDHUP leaves the write side alone *)
+Theorem wakeup_frame : forall w e, ev_out e = false -> ev_rdhup e = false -> wake_event w e = w.
+Proof.
+  intros w [r i o] Ho Hr. cbn in Ho, Hr. subst. unfold wake_event, handle_event. cbn [ev_rdhup ev_in ev_out].
+  destruct i; reflexivity.
+Qed.
